@@ -137,12 +137,12 @@ Lemma worker_ok_releases l : worker_ok (map IRelease l).
 Proof. rewrite <- (app_nil_r (map IRelease l)). apply worker_ok_push, worker_ok_nil. Qed.
 
 (* the program of a merging compaction *)
-Lemma worker_ok_compaction ins outs roll (hold : bool) :
-  worker_ok ((if hold then [ITake H_COMPACT] else [])
+Lemma worker_ok_compaction (hc : N) ins outs roll (hold : bool) :
+  worker_ok ((if hold then [ITake hc] else [])
              ++ map IPinLink outs ++ [ICommit (Some (mkEdit ins outs None)) roll]
-             ++ map IRelease outs ++ (if hold then [IDropSnap H_COMPACT] else [])).
+             ++ map IRelease outs ++ (if hold then [IDropSnap hc] else [])).
 Proof.
-  set (post := if hold then [IDropSnap H_COMPACT] else []).
+  set (post := if hold then [IDropSnap hc] else []).
   assert (Hpost_r : forall x, nrel x post = O) by (intros x; subst post; destruct hold; reflexivity).
   assert (Hpost_p : forall x, npin x post = O) by (intros x; subst post; destruct hold; reflexivity).
   assert (Hw_post : Forall worker_instr post) by (subst post; destruct hold; repeat constructor).
@@ -171,7 +171,7 @@ Proof.
     { induction ps as [|y ps IH]; intros a0 E0; cbn [map app] in E0.
       - destruct a0 as [|j a0]; cbn [app] in E0; [now injection E0 as <- _ <-|].
         injection E0 as _ E0. exfalso. subst tailp post.
-        assert (K : In (ICommit (Some e) r) (map IRelease outs ++ (if hold then [IDropSnap H_COMPACT] else []))).
+        assert (K : In (ICommit (Some e) r) (map IRelease outs ++ (if hold then [IDropSnap hc] else []))).
         { rewrite E0. apply in_or_app. right. now left. }
         apply in_app_iff in K. destruct K as [K|K]; [exact (no_commit_releases _ _ _ K)|destruct hold; [destruct K as [K|[]]; discriminate|destruct K]].
       - destruct a0 as [|j a0]; cbn [app] in E0; [discriminate|]. injection E0 as _ E0. exact (IH a0 E0). }
@@ -187,7 +187,7 @@ Proof.
     + intros a b E x. destruct a as [|j a]; cbn [app] in E.
       * subst b. rewrite npin_cons, nrel_cons. cbn [is_pin is_rel]. exact (balanced_whole _ x (Hbal outs (fun z => le_n _))).
       * injection E as _ E. exact (Hbal outs (fun z => le_n _) a b E x).
-    + apply (commit_ok_push [ITake H_COMPACT]); [exact Hcom|intros e r [K|[]]; discriminate].
+    + apply (commit_ok_push [ITake hc]); [exact Hcom|intros e r [K|[]]; discriminate].
   - split; [exact Hw|split; [exact (Hbal outs (fun z => le_n _))|exact Hcom]].
 Qed.
 
@@ -1573,10 +1573,10 @@ Proof.
   - intros _ H. exfalso. apply H. reflexivity.
 Qed.
 
-Lemma compaction_prog_counts ins outs roll (hold : bool) y :
-  let prog := (if hold then [ITake H_COMPACT] else [])
+Lemma compaction_prog_counts (hc : N) ins outs roll (hold : bool) y :
+  let prog := (if hold then [ITake hc] else [])
               ++ map IPinLink outs ++ [ICommit (Some (mkEdit ins outs None)) roll]
-              ++ map IRelease outs ++ (if hold then [IDropSnap H_COMPACT] else []) in
+              ++ map IRelease outs ++ (if hold then [IDropSnap hc] else []) in
   npin y prog = cnt y outs /\ nrel y prog = cnt y outs.
 Proof.
   cbn zeta. rewrite !npin_app, !nrel_app, npin_pins, nrel_pins, npin_releases, nrel_releases.
@@ -1593,7 +1593,7 @@ Proof. apply spc_zero. Qed.
 Theorem InvR_step s ev : InvM s -> InvR s -> InvR (step s ev).
 Proof.
   intros [HM HP] [G HR]. apply GInv_GFs in G.
-  destruct ev as [sums rolls tm|t| |x roll|ins outs roll hold| |r|r| | |ok| ]; cbn [step].
+  destruct ev as [sums rolls tm|t| |x roll|j ins outs roll hold|j|r|r| | |ok| ]; cbn [step].
   - (* EOpen *)
     destruct (s_p s) as [p|] eqn:Ep; [split; [now apply GInv_GFs|now rewrite Ep]|].
     match goal with |- InvR (if ?c then _ else _) => destruct c end; [|split; [now apply GInv_GFs|now rewrite Ep]].
@@ -1679,11 +1679,11 @@ Proof.
     apply andb_prop in Ec. destruct Ec as [Ec Efl]. apply andb_prop in Ec. destruct Ec as [Er Ebusy].
     split; [now apply GInv_GFs|]. cbn [s_p s_fs upd_p]. intros p' [= <-].
     destruct (HP p eq_refl) as [[P1 P2 P3 P4] PH]. specialize (HR p eq_refl).
-    assert (Hidle : pc_get T_COMPACT p = []).
-    { unfold busy in Ebusy. destruct (pc_get T_COMPACT p); [reflexivity|discriminate]. }
-    apply RInv_spawn; auto; try discriminate.
+    assert (Hidle : pc_get (T_COMPACT j) p = []).
+    { unfold busy in Ebusy. destruct (pc_get (T_COMPACT j) p); [reflexivity|discriminate]. }
+    apply RInv_spawn; auto; try apply T_COMPACT_not_main; try apply T_COMPACT_not_flush.
     + apply worker_ok_compaction.
-    + intros y. destruct (compaction_prog_counts ins outs roll hold y) as [K1 K2]. cbn zeta in K1, K2.
+    + intros y. destruct (compaction_prog_counts (H_COMPACT j) ins outs roll hold y) as [K1 K2]. cbn zeta in K1, K2.
       etransitivity; [exact K1|symmetry; exact K2].
     + intros y L r n pre Efp. apply negb_true_iff in Efl.
       assert (Hno : ~ In y outs).
@@ -1693,19 +1693,19 @@ Proof.
           - cbn [e_add existsb]. apply mem_In in Hin. now rewrite Hin. }
         congruence. }
       assert (Hc : cnt y outs = O) by (destruct (cnt y outs) eqn:E; [reflexivity|exfalso; apply Hno, cnt_pos; lia]).
-      destruct (compaction_prog_counts ins outs roll hold y) as [K1 _]. cbn zeta in K1. etransitivity; [exact K1|exact Hc].
+      destruct (compaction_prog_counts (H_COMPACT j) ins outs roll hold y) as [K1 _]. cbn zeta in K1. etransitivity; [exact K1|exact Hc].
   - (* EMove *)
     destruct (s_p s) as [p|] eqn:Ep; [|split; [now apply GInv_GFs|now rewrite Ep]].
     match goal with |- InvR (if ?c then _ else _) => destruct c eqn:Ec end; [|split; [now apply GInv_GFs|now rewrite Ep]].
     apply andb_prop in Ec. destruct Ec as [Er Ebusy].
     split; [now apply GInv_GFs|]. cbn [s_p s_fs upd_p]. intros p' [= <-].
     destruct (HP p eq_refl) as [[P1 P2 P3 P4] PH]. specialize (HR p eq_refl).
-    assert (Hidle : pc_get T_COMPACT p = []).
-    { unfold busy in Ebusy. destruct (pc_get T_COMPACT p); [reflexivity|discriminate]. }
-    apply RInv_spawn; auto; try discriminate.
+    assert (Hidle : pc_get (T_COMPACT j) p = []).
+    { unfold busy in Ebusy. destruct (pc_get (T_COMPACT j) p); [reflexivity|discriminate]. }
+    apply RInv_spawn; auto; try apply T_COMPACT_not_main; try apply T_COMPACT_not_flush.
     split; [repeat constructor|split].
     + apply balanced_no_pins. intros y. reflexivity.
-    + intros a e r b E. destruct a as [|j a]; [discriminate|]. injection E as _ E. destruct a; discriminate.
+    + intros a e r b E. destruct a as [|j0 a]; [discriminate|]. injection E as _ E. destruct a; discriminate.
   - (* ETake *)
     destruct (s_p s) as [p|] eqn:Ep; [|split; [now apply GInv_GFs|now rewrite Ep]].
     match goal with |- InvR (if ?c then _ else _) => destruct c eqn:Ec end; [|split; [now apply GInv_GFs|now rewrite Ep]].
@@ -1714,7 +1714,7 @@ Proof.
     destruct (HP p eq_refl) as [[P1 P2 P3 P4] PH]. specialize (HR p eq_refl).
     assert (Hidle : pc_get (T_READER r) p = []).
     { unfold busy in Ebusy. destruct (pc_get (T_READER r) p); [reflexivity|discriminate]. }
-    apply RInv_spawn; auto; try (unfold T_READER, T_MAIN, T_FLUSH; lia).
+    apply RInv_spawn; auto; try apply T_READER_not_main; try apply T_READER_not_flush.
     split; [repeat constructor|split].
     + apply balanced_no_pins. intros y. reflexivity.
     + intros a e r0 b E. destruct a as [|j a]; [discriminate|]. injection E as _ E. destruct a; discriminate.
@@ -1726,7 +1726,7 @@ Proof.
     destruct (HP p eq_refl) as [[P1 P2 P3 P4] PH]. specialize (HR p eq_refl).
     assert (Hidle : pc_get (T_READER r) p = []).
     { unfold busy in Ebusy. destruct (pc_get (T_READER r) p); [reflexivity|discriminate]. }
-    apply RInv_spawn; auto; try (unfold T_READER, T_MAIN, T_FLUSH; lia).
+    apply RInv_spawn; auto; try apply T_READER_not_main; try apply T_READER_not_flush.
     split; [repeat constructor|split].
     + apply balanced_no_pins. intros y. reflexivity.
     + intros a e r0 b E. destruct a as [|j a]; [discriminate|]. injection E as _ E. destruct a; discriminate.
